@@ -11,4 +11,5 @@ CONSTANTS
   EmitOn = TRUE
 CONSTRAINT HeadOK
 INVARIANTS ResumeEqFreshC Idempotent StableC OffsSaneC CovProbe Emit EmitTwo EmitByte DeclCore DeclKind DeclExtra
+PROPERTY MonotoneCont
 CHECK_DEADLOCK FALSE
